@@ -5,6 +5,7 @@ CONSTANTS
   Collector = "coll"
   DefaultLimit = 600000000
   DiffVals = {}
+  ParamVals = {}
   PriceVals = {}
   LimitVals = {}
   MaxLen = 0
